@@ -51,6 +51,8 @@ def classify(obs, exps, mode_letter):
 
 def replay_parallel(ctx, exe, env, cases, chunks):
     n = len(cases)
+    if n == 0:
+        return {}, []
     size = (n + chunks - 1) // chunks
     parts = [(i, cases[i:i + size]) for i in range(0, n, size)]
 
@@ -174,8 +176,10 @@ def run(ctx):
         ctx.mismatch("crash:" + c["crash"], "replayer crashed at step %s: %s" % (c["step"], c.get("log", "")[-800:]), [cases[c["beh"]]])
     rnd = random.Random(ctx.seed)
     nasan = 2000 if ctx.tier == "thorough" else 300
+    if os.environ.get("VERIF_VARIANT") == "fast":      # development aid (scratch builds without an ASan library)
+        nasan = 0
     idx = sorted(rnd.sample(range(len(cases)), min(nasan, len(cases))))
-    exe_a, lib_a = ctx.build_harness("props_replay", ["props_replay.cpp"], variant="asan")
+    exe_a, lib_a = ctx.build_harness("props_replay", ["props_replay.cpp"], variant=("asan" if nasan else "fast"))
     env_a = ctx.occa_env(lib_a)
     env_a["OCCA_CONFIG"] = env["OCCA_CONFIG"]
     env_a["ASAN_OPTIONS"] += ":quarantine_size_mb=8"
